@@ -94,6 +94,16 @@ def check_cifar(inp):
   d = cifar100.preprocess_image_tff(img, h, w, distort=True)
   if d.shape != (2, h, w, 3):
     return f'training crop has shape {d.shape}'
+  # the public batch wrapper agrees with the function it wraps (non-square crops included) and passes the labels through
+  ys = np.arange(2, dtype=np.int32)
+  b = cifar100.preprocess_batch_tff({'x': img, 'y': ys}, crop_height=h, crop_width=w)
+  if set(b) != {'x', 'y'} or b['x'].shape != want.shape or float(np.abs(b['x'] - want).max()) > 1e-3 or not np.array_equal(b['y'], ys):
+    return (f'preprocess_batch_tff(crop_height={h}, crop_width={w}): x has shape {b["x"].shape}, the standardised centre crop has '
+            f'{want.shape}; wrapper and preprocess_image_tff disagree')
+  np.random.seed(seed)
+  bd = cifar100.preprocess_batch_tff({'x': img, 'y': ys}, crop_height=h, crop_width=w, distort=True)
+  if bd['x'].shape != (2, h, w, 3):
+    return f'preprocess_batch_tff(distort=True) gives shape {bd["x"].shape} for a {h}x{w} crop'
 
 
 def sweep_cifar(tier, seed):
